@@ -216,6 +216,14 @@ func (a *archive) spec(target string) ([]byte, bool) {
 	return nil, false
 }
 
+// Executable-directory names: the FHS name, an unrelated one, and near misses
+// of "bin" for which ../libexec must NOT be searched. A space is written %20
+// in the case line.
+var nearMissDirs = []string{"sbin", "cabin", "bin2", "xbin", "Bin", "bin ", "nib", ".bin", "bin.", "robin", "bi"}
+
+func escapeName(n string) string   { return strings.ReplaceAll(n, " ", "%20") }
+func unescapeName(n string) string { return strings.ReplaceAll(n, "%20", " ") }
+
 func absentLike(k string) bool { return k == "A0" || k == "A1" || k == "S" }
 
 func runCase(line string) (impl, oracle string) {
@@ -234,7 +242,8 @@ func runCase(line string) (impl, oracle string) {
 		return "setup-failed: " + err.Error(), ""
 	}
 	exeDir := filepath.Dir(exe)
-	if filepath.Base(exeDir) != f[0] {
+	dirName := unescapeName(f[0])
+	if filepath.Base(exeDir) != dirName {
 		return "setup-failed: worker runs in " + exeDir, ""
 	}
 	root := filepath.Dir(exeDir)
@@ -293,8 +302,10 @@ func runCase(line string) (impl, oracle string) {
 	}
 
 	// The property's oracle: precedence and exactness.
+	// The search path is exactly [executable directory], plus [../libexec] iff
+	// the base name of the executable directory is exactly "bin".
 	locs := []locState{st1}
-	if f[0] == "bin" {
+	if dirName == "bin" {
 		locs = append(locs, st2)
 	}
 	target := goos + "_" + goarch
@@ -424,10 +435,10 @@ func (p *proc) ask(line string) (string, string) {
 	return parts[0], parts[1]
 }
 
-var namePool = []string{"linux_amd64", "linux_arm64", "darwin_arm64", "windows_amd64", "windows_386", "freebsd_amd64",
+var namePool = []string{"linux_amd64", "linux_arm64", "linux_arm", "windows_arm64", "darwin_arm64", "windows_amd64", "windows_386", "freebsd_amd64",
 	"a_b_c", "Linux_amd64", "linux-amd64", "linux_amd64 ", "linux_amd6", "linux_amd644", "_", "linux_", "_amd64", "fakeos_fakearch", "dir/linux_amd64"}
 
-var platformPool = [][2]string{{"linux", "amd64"}, {"linux", "arm64"}, {"darwin", "arm64"}, {"windows", "amd64"}, {"windows", "386"}, {"freebsd", "amd64"},
+var platformPool = [][2]string{{"linux", "amd64"}, {"linux", "arm64"}, {"linux", "arm"}, {"windows", "arm"}, {"darwin", "arm64"}, {"windows", "amd64"}, {"windows", "386"}, {"freebsd", "amd64"},
 	{"a", "b_c"}, {"a_b", "c"}, {"fakeos", "amd64"}, {"linux", "fakearch"}, {"fakeos", "fakearch"}, {"", ""}, {"linux", ""}, {"", "amd64"}, {"Linux", "amd64"}, {"linux", "amd6"}}
 
 func hexs(s string) string { return hx.Hex([]byte(s)) }
@@ -529,7 +540,12 @@ func main() {
 		// Worker pools: several independent FHS layouts (the work is dominated
 		// by file-system calls) and one non-FHS layout.
 		pools := map[string][]*proc{}
-		for _, w := range []struct{ layout, dirName string }{{"L0", "bin"}, {"L1", "bin"}, {"L2", "bin"}, {"L3", "bin"}, {"M0", "other"}, {"M1", "other"}} {
+		type layoutSpec struct{ layout, dirName string }
+		layouts := []layoutSpec{{"L0", "bin"}, {"L1", "bin"}, {"L2", "bin"}, {"L3", "bin"}, {"M0", "other"}}
+		for i, n := range nearMissDirs {
+			layouts = append(layouts, layoutSpec{fmt.Sprintf("N%d", i), n})
+		}
+		for _, w := range layouts {
 			p, err := startWorker(work, w.layout, w.dirName)
 			if err != nil {
 				fmt.Fprintln(os.Stderr, "cannot start worker:", err)
@@ -554,12 +570,13 @@ func main() {
 			for i, line := range batch {
 				impls[i] = "bad-op"
 				f := strings.Fields(line)
-				if len(f) == 0 || len(pools[f[0]]) == 0 {
+				if len(f) == 0 || len(pools[unescapeName(f[0])]) == 0 {
 					continue
 				}
-				ps := pools[f[0]]
-				p := ps[next[f[0]]%len(ps)]
-				next[f[0]]++
+				dn := unescapeName(f[0])
+				ps := pools[dn]
+				p := ps[next[dn]%len(ps)]
+				next[dn]++
 				queues[p] = append(queues[p], i)
 			}
 			var wg sync.WaitGroup
@@ -633,11 +650,57 @@ func main() {
 				}
 			}
 		}
+		// Near misses of "bin": a bundle only (or also) in the sibling libexec
+		// must not be found; the executable directory alone decides.
+		for _, dirName := range append([]string{"bin"}, nearMissDirs...) {
+			for _, s1 := range []string{"A1", "S", "F"} {
+				for _, s2 := range []string{"A0", "A1", "S", "D", "E", "L", "F", "K"} {
+					for _, presence := range []int{2, 3} {
+						for _, out := range []string{"o", "t"} {
+							a, b := s1, s2
+							if s1 == "F" {
+								a += "=" + archFor("EXE", presence&1 != 0)
+							}
+							if s2 == "F" || s2 == "K" {
+								b += "=" + archFor("LIBEXEC", presence&2 != 0)
+							}
+							emit(fmt.Sprintf("%s %s %s %s %s %s", escapeName(dirName), a, b, hexs("linux"), hexs("amd64"), out))
+							c.Count("exhaustive-near-miss-dir")
+						}
+					}
+				}
+			}
+		}
+		// Entry names that are prefixes / extensions of the requested platform:
+		// only the exact name may match, wherever it stands in the archive.
+		for _, req := range [][2]string{{"linux", "arm"}, {"linux", "arm64"}, {"windows", "arm"}, {"linux", "amd6"}, {"linu", "x_arm"}} {
+			for _, names := range [][]string{
+				{"linux_arm64", "linux_arm", "windows_arm64"},
+				{"linux_arm64", "windows_arm64"},
+				{"linux_arm", "linux_arm64"},
+				{"linux_armv7", "linux_arm64be", "linux_arm"},
+				{"linux_amd64", "linux_amd6"},
+				{"linux_amd64"},
+			} {
+				es := make([]entry, len(names))
+				for i, n := range names {
+					es[i] = entry{n, []byte("data-of-" + n)}
+				}
+				for _, dirName := range []string{"bin", "other"} {
+					emit(fmt.Sprintf("%s F=%s A1 %s %s t", dirName, showArchive(es, "e"), hexs(req[0]), hexs(req[1])))
+					emit(fmt.Sprintf("%s A1 F=%s %s %s o", dirName, showArchive(es, "e"), hexs(req[0]), hexs(req[1])))
+					c.Count("exhaustive-name-prefix")
+				}
+			}
+		}
 		// Random layouts, archives and platforms.
 		for i := 0; i < c.Size(5000, 120000); i++ {
 			dirName := "bin"
-			if c.R.Chance(1, 4) {
+			switch c.R.Intn(10) {
+			case 0:
 				dirName = "other"
+			case 1, 2, 3:
+				dirName = escapeName(nearMissDirs[c.R.Intn(len(nearMissDirs))])
 			}
 			p := platformPool[c.R.Intn(len(platformPool))]
 			out := "t"
